@@ -2,11 +2,12 @@
 # builds /verif/seeded/<id>/ from the sub-agents' deliverables and my confirmation results
 import json,os,re,shutil,sys,glob
 res={}
-for f in sorted(glob.glob('/tmp/mut/results*.txt')):
+for f in sorted(glob.glob('/tmp/mut/results*.txt'), key=os.path.getmtime):
     for l in open(f):
-        m=re.match(r'RESULT (/tmp/mut/out/(C\d+)/(m\d)) build=(\w+) suite=(\w+) demo_with=(\w+) demo_without=(\w+) \| (.*)',l)
+        m=re.match(r'RESULT (/tmp/mut/out(2?)/(C\d+)/(m\d)) build=(\w+) suite=(\w+) demo_with=(\w+) demo_without=(\w+) \| (.*)',l)
         if not m: continue
-        d,prop,mn,build,suite,dw,dwo,rest=m.groups()
+        d,wave,prop,mn,build,suite,dw,dwo,rest=m.groups()
+        if wave=='2': mn='w2'+mn
         res[(prop,mn)]=dict(dir=d,build=build,suite=suite,demo_with=dw,demo_without=dwo,checks=rest.strip())
 for (prop,mn),r in sorted(res.items()):
     sid=f"{prop}-{mn}"
